@@ -164,7 +164,10 @@ func (x *Unit) typeInv(st *State, v Val, depth int) T {
 	case *types.Slice:
 		return And(Cmp(">=", x.u.SliceLen(v.T), IntLit(0)), Cmp(">=", x.u.SliceCap(v.T), x.u.SliceLen(v.T)))
 	case *types.Map:
-		return And(Cmp(">=", x.u.MapLen(v.T), IntLit(0)), Imp(x.u.MapNil(v.T), Eq(x.u.MapLen(v.T), IntLit(0))))
+		if x.isGhostMap(v) {
+			return Cmp(">=", x.u.MapLen(v.T), IntLit(0))
+		}
+		return And(Cmp(">=", v.T, IntLit(0)), Cmp("<=", x.proot(v.T), st.alloc))
 	case *types.Interface:
 		return And(Cmp(">=", IfaceTyp(v.T), IntLit(0)), Imp(Eq(IfaceTyp(v.T), IntLit(0)), Eq(IfaceVal(v.T), IntLit(0))))
 	case *types.Struct:
@@ -286,6 +289,64 @@ func (x *Unit) convert(st *State, v Val, to types.Type) Val {
 		return Val{x.fresh("conv", srt), to}
 	}
 	return Val{v.T, to}
+}
+
+// ---------- maps: references to contents stored in the heap (ghost maps are plain values)
+
+func (x *Unit) isGhostMap(v Val) bool {
+	_, ok := x.u.mapKV[v.Sort]
+	return ok
+}
+
+func (x *Unit) mapLV(m Val) *LV {
+	dt := x.u.MapDT(m.Typ)
+	return &LV{kind: lvHeap, key: "map:" + string(dt), ref: m.T, srt: dt, typ: m.Typ}
+}
+
+// mapContent returns the contents datatype value of map m in state st.
+func (x *Unit) mapContent(st *State, m Val) T {
+	if x.isGhostMap(m) {
+		return m.T
+	}
+	lv := x.mapLV(m)
+	h := x.heapGet(st, lv.key, ArraySort(SInt, lv.srt))
+	return Select(h, m.T)
+}
+
+func (x *Unit) mapIsNil(st *State, m Val) T {
+	if x.isGhostMap(m) {
+		return x.u.MapNil(m.T)
+	}
+	return Eq(m.T, IntLit(0))
+}
+
+func (x *Unit) mapHas(st *State, m Val, k T) T {
+	c := x.mapContent(st, m)
+	return And(Not(x.mapIsNil(st, m)), Select(x.u.MapDom(c), k))
+}
+
+func (x *Unit) mapLenT(st *State, m Val) T {
+	c := x.mapContent(st, m)
+	return Ite(x.mapIsNil(st, m), IntLit(0), x.u.MapLen(c))
+}
+
+// newMap allocates a map with the given contents.
+func (x *Unit) newMap(st *State, t types.Type, content T) Val {
+	r := x.alloc(st)
+	m := Val{r, t}
+	lv := x.mapLV(m)
+	h := x.heapGet(st, lv.key, ArraySort(SInt, lv.srt))
+	st.heap[lv.key] = x.define("H_map", Store(h, r, content))
+	return m
+}
+
+func (x *Unit) emptyMapContent(t types.Type) T {
+	dt := x.u.MapDT(t)
+	kv := x.u.mapKV[dt]
+	mt := under(t).(*types.Map)
+	dom := T{fmt.Sprintf("((as const (Array %s Bool)) false)", kv[0]), ArraySort(kv[0], SBool)}
+	val := T{fmt.Sprintf("((as const (Array %s %s)) %s)", kv[0], kv[1], x.zero(mt.Elem()).S), ArraySort(kv[0], kv[1])}
+	return x.u.MkMap(dt, False, IntLit(0), dom, val)
 }
 
 // ---------- lvalues
@@ -481,9 +542,9 @@ func (x *Unit) lvalue(st *State, e ast.Expr) *LV {
 		bt := x.info.TypeOf(e.X)
 		switch tt := under(bt).(type) {
 		case *types.Map:
-			plv := x.lvalue(st, e.X)
+			m := x.eval(st, e.X)
 			k := x.convert(st, x.eval(st, e.Index), tt.Key())
-			return &LV{kind: lvMap, parent: plv, idx: k.T, typ: tt.Elem()}
+			return &LV{kind: lvMap, parent: x.mapLV(m), idx: k.T, typ: tt.Elem()}
 		case *types.Slice:
 			plv := x.lvalue(st, e.X)
 			i := x.eval(st, e.Index)
@@ -1029,8 +1090,8 @@ func (x *Unit) evalIndex(st *State, e *ast.IndexExpr, n int) []Val {
 	case *types.Map:
 		m := x.eval(st, e.X)
 		k := x.convert(st, x.eval(st, e.Index), tt.Key())
-		had := And(Not(x.u.MapNil(m.T)), Select(x.u.MapDom(m.T), k.T))
-		v := Ite(had, Select(x.u.MapVal(m.T), k.T), x.zero(tt.Elem()).T)
+		had := x.mapHas(st, m, k.T)
+		v := Ite(had, Select(x.u.MapVal(x.mapContent(st, m)), k.T), x.zero(tt.Elem()).T)
 		out := []Val{{x.define("mapget", v), tt.Elem()}}
 		if n == 2 {
 			out = append(out, Val{had, types.Typ[types.Bool]})
@@ -1208,12 +1269,10 @@ func (x *Unit) evalComposite(st *State, e *ast.CompositeLit) Val {
 		}
 		return Val{x.define("alit", cur), t}
 	case *types.Map:
-		srt := x.u.SortOf(t)
-		z := x.zero(t)
-		dom, val := x.u.MapDom(z.T), x.u.MapVal(z.T)
-		kv := x.u.mapKV[srt]
-		dom = T{fmt.Sprintf("((as const (Array %s Bool)) false)", kv[0]), dom.Sort}
-		val = T{fmt.Sprintf("((as const (Array %s %s)) %s)", kv[0], kv[1], x.zero(tt.Elem()).S), val.Sort}
+		dt := x.u.MapDT(t)
+		kv := x.u.mapKV[dt]
+		dom := T{fmt.Sprintf("((as const (Array %s Bool)) false)", kv[0]), ArraySort(kv[0], SBool)}
+		val := T{fmt.Sprintf("((as const (Array %s %s)) %s)", kv[0], kv[1], x.zero(tt.Elem()).S), ArraySort(kv[0], kv[1])}
 		var keys []T
 		for _, el := range e.Elts {
 			p := el.(*ast.KeyValueExpr)
@@ -1228,7 +1287,7 @@ func (x *Unit) evalComposite(st *State, e *ast.CompositeLit) Val {
 		if len(keys) > 0 {
 			x.fact(Cmp(">=", ln, IntLit(1)))
 		}
-		return Val{x.define("mlit", x.u.MkMap(srt, False, ln, dom, val)), t}
+		return x.newMap(st, t, x.define("mlit", x.u.MkMap(dt, False, ln, dom, val)))
 	}
 	x.unsupportedf(e, "composite literal of %v", t)
 	return x.freshVal(st, "lit", t)
